@@ -4,8 +4,9 @@ sys.path.insert(0, os.path.dirname(os.path.dirname(os.path.abspath(__file__))))
 sys.argv, args = [sys.argv[0]], sys.argv[1:]
 import vcheck
 from pyvc.verify import Verifier, discharge_all
-R = vcheck.load_registry()
 prop, sub = args[0], args[1]
+R = vcheck.load_registry(prop)
+R.current, R.scope = prop, tuple(vcheck.depends_closure(prop))
 to = int(args[2]) if len(args) > 2 else 10000
 for c in R.values():
     if c.prop == prop and sub in c.key and not c.trusted:
